@@ -210,12 +210,12 @@ theorem new_loops_as_in_source (stream : Nat → Int) (call : Call) (pos : Nat) 
     library assigns an `id_generator` attribute (both checked by the generator on every run) -/
 theorem generators_as_in_source (g : IntGen) :
     IntGen.init = { current := (iGRun (fun cur => cur + intIncrement) genInit intStart).current } ∧
-    IntGen.peek g = ((iGRun (fun cur => cur + intIncrement) genPeek g.current).ret).getD 0 ∧
+    (iGRun (fun cur => cur + intIncrement) genPeek g.current).ret = some (IntGen.peek g) ∧
     (iGRun (fun cur => cur + intIncrement) genPeek g.current).current = g.current ∧
-    IntGen.next g = (((iGRun (fun cur => cur + intIncrement) genNext g.current).ret).getD 0,
-                     { current := (iGRun (fun cur => cur + intIncrement) genNext g.current).current }) ∧
+    (iGRun (fun cur => cur + intIncrement) genNext g.current).ret = some (IntGen.next g).1 ∧
+    (IntGen.next g).2 = { current := (iGRun (fun cur => cur + intIncrement) genNext g.current).current } ∧
     uuidReadfuncIsUuid4 = true ∧ idGeneratorBoundOnlyInInit = true :=
-  ⟨(intGen_eq g).1, (intGen_eq g).2.1, (intGen_eq g).2.2.1, (intGen_eq g).2.2.2, rfl, rfl⟩
+  ⟨(intGen_eq g).1, (intGen_eq g).2.1, (intGen_eq g).2.2.1, (intGen_eq g).2.2.2.1, (intGen_eq g).2.2.2.2, rfl, rfl⟩
 
 /-! non-vacuity: the interpreter runs the generated loops; loops in another order are another function -/
 example : ((iNewOne newLoops intStream call2 2).1.dict) =
@@ -226,6 +226,15 @@ example : dget (iNewOne newLoops intStream call3 0).1.dict ['I', 'd'] = some (.i
     dget (iNewOne (newLoops.take 1 ++ (newLoops.drop 2) ++ (newLoops.drop 1).take 1) intStream call3 0).1.dict ['I', 'd'] = some (.int 77) := by decide
 example : (iGRun (fun cur => cur + intIncrement) genNext 4).ret = some 4 ∧
     (iGRun (fun cur => cur + intIncrement) genNext 4).current = 5 := by decide
+/-- other statement lists are other methods: a `return` placed before the draw ends `next` without advancing the generator
+    (every call returns the same value - the ids 1, 1, 1 of the audit), a `next` without a return statement returns no value, a
+    `return val` before `val` is bound returns none, and an `__init__` that does not draw starts one value early -/
+example : (iGRun (fun cur => cur + intIncrement) [.saveCurrent, .returnSaved, .drawCurrent] 4).current = 4 ∧
+    (iGRun (fun cur => cur + intIncrement) [.saveCurrent, .returnSaved, .drawCurrent] 4).ret = some 4 ∧
+    (iGRun (fun cur => cur + intIncrement) [.saveCurrent, .drawCurrent] 4).ret = none ∧
+    (iGRun (fun cur => cur + intIncrement) [.returnSaved, .saveCurrent, .drawCurrent] 4).ret = none ∧
+    (iGRun (fun cur => cur + intIncrement) [.drawCurrent, .returnCurrent] 4).ret = some 5 ∧
+    (iGRun (fun cur => cur + intIncrement) [] intStart).current ≠ IntGen.init.current := by decide
 
 end PyxProps.C19
 
